@@ -31,6 +31,14 @@ CHECKS = {
          "no orphan shard file, every listed shard decodable, read-back equals accepted writes. Writer-level atomicity is validated on the real writers, not proved.",
     note="numpy can_cast and TensorFlow feature construction are table-modelled externals; the per-format writer buffers are exercised, not modelled in Lean yet.",
     ref="DESIGN.md §5 C18"),
+ "C13": dict(
+    technique="Lean 4 proof (16-clause inductive invariant over all reachable states of the queue-operation LTS M-POOL; deadlock-freedom; termination measure) + trace-acceptance correspondence of the real LazyPool under a deterministic scheduler",
+    text="C13_exactly_once, C13_fault_no_silent_end, C13_deadlock_free, C13_terminates, C13_early_exit_drains, C13_inflight, C13_no_duplicates for every T>=1, "
+         "prefill P>=T, finite or infinite input, every failing set and every interleaving; C13_original_deadlocks is the kernel-checked stuck state of the pinned "
+         "code (fixed in /repo). The real pool runs under a scheduler that owns every queue operation (deadlock decided exactly); each trace must be accepted by the "
+         "compiled model with the measured P and end in a terminal model state. Thorough adds exhaustive schedule enumeration for tiny (T,n) as model validation.",
+    note="CPython queue.Queue (FIFO, blocking get) and threading are the modelled boundary; abandoning is allowed at any point between two results (a superset of the yield points).",
+    ref="DESIGN.md §5 C13, Appendix A.1"),
 }
 
 def main():
